@@ -120,11 +120,20 @@ def kAK3 : KindSpec :=
     tbl := fun i => if i = 3 then validAK3.map (fun c => [c]) else []
     num := fun _ => none }
 
+/-- AK402 as the writer leaves it: empty (no reference number, or `ele_ref_num` is not a digit string — the id of a composite,
+    `C022`) or one to four ASCII digits (a data element number) -/
+def ownAK402 (e : List Str) : Bool :=
+  match e with
+  | [v] => v.isEmpty || (v.all isDig && decide (v.length ≤ 4))
+  | _ => false
+
+/-- AK403 is a code of the writer's table; AK402 is the writer's own when it has the shape `ownAK402` (the writer copies
+    `ele_ref_num` only when it is a string of ASCII digits: `ak402_written`), else it counts as echoed -/
 def kAK4 : KindSpec :=
   { minLen := 3
-    own := fun i _ => i == 2
-    tbl := fun i => if i = 2 then validAK4.map (fun c => [c]) else []
-    num := fun _ => none }
+    own := fun i e => i == 2 || (i == 1 && ownAK402 e)
+    tbl := fun i => if i = 2 then validAK4.map (fun c => [c]) else if i = 1 then [[[]]] else []
+    num := fun i => if i = 1 then some (1, 4) else none }
 
 /-- AK502..: `'5'` (a child has an error), `'6'` / `'7'` (ST/SE element positions) come from the writer, the rest from the tree -/
 def ownAK5 : List (List Str) := [[['5']], [['6']], [['7']]]
